@@ -415,9 +415,11 @@ Definition wf_al_entryb (slots : list (smap unit)) (kv : key * Z) : bool :=
   | i => match nth_error slots (Z.to_nat i) with Some (_ :: _) => true | _ => false end
   end.
 
+Definition nzb (m : smap word) : bool := forallb (fun kv => negb (N.eqb (snd kv) 0)) m.
+
 Definition wf_coreb (c : core) : bool :=
-  forallb (fun kv => sortedb (a_stor (snd kv))) (objs c)
-  && sortedb (objs c) && sortedb (transient c) && sortedb (al_addr c) && sortedb (preim c)
+  forallb (fun kv => sortedb (a_stor (snd kv)) && nzb (a_stor (snd kv))) (objs c)
+  && sortedb (objs c) && sortedb (transient c) && nzb (transient c) && sortedb (al_addr c) && sortedb (preim c)
   && forallb (wf_al_entryb (al_slots c)) (al_addr c).
 
 Definition wf_dirtb (d : smap Z) : bool := sortedb d && forallb (fun kv => negb (Z.eqb (snd kv) 0)) d.
